@@ -203,3 +203,33 @@ func trimLastRune(s string) string {
 	_, n := utf8.DecodeLastRuneInString(s)
 	return s[:len(s)-n]
 }
+
+
+// drawEOL draws how the lines of a property file end (PhCase.EOL).
+func drawEOL(t *rapid.T) string {
+	return rapid.SampledFrom([]string{"", "", "", "crlf", "crlf", "nofinal", "crlf_nofinal"}).Draw(t, "eol")
+}
+
+// propFileText renders the lines of a property file: with a terminator behind the last line a further line follows the
+// key's line, without one the key's line is the last.
+func propFileText(lines []string, eol string) string {
+	sep := "\n"
+	if strings.HasPrefix(eol, "crlf") {
+		sep = "\r\n"
+	}
+	if strings.HasSuffix(eol, "nofinal") {
+		return strings.Join(lines, sep)
+	}
+	return strings.Join(append(append([]string{}, lines...), "last=z"), sep) + sep
+}
+
+func eolClasses(o *vf.Obs, src, eol, how string, nonString bool) {
+	if src != "property" {
+		return
+	}
+	crlf := strings.HasPrefix(eol, "crlf")
+	o.ClassIf(crlf, "property_file_crlf")
+	o.ClassIf(crlf && how == "resolves", "property_file_crlf:resolves")
+	o.ClassIf(crlf && how == "resolves" && nonString, "property_file_crlf:resolves_non_string_field")
+	o.ClassIf(strings.HasSuffix(eol, "nofinal"), "property_file_last_line_unterminated")
+}
